@@ -396,7 +396,8 @@ def run(ix, R):
                         continue
                     kws = dict(zip(fn.extra[1:], fn.args[len(fn.args) - len(fn.extra[1:]):])) if fn.extra[1:] else {}
                     ok = len(ce.args) == 2 and tab.equal(ce.args[1], pe['w']) and \
-                        tab.equal(fn.args[0], spec(fl, 'self.wavenumberGrid[F]', b)) and tab.equal(fn.args[1], O) and \
+                        (tab.equal(fn.args[0], spec(fl, 'self.wavenumberGrid[F]', b)) or
+                         tab.equal(fn.args[0], spec(fl, 'self.wavenumberGrid.take(F)', b))) and tab.equal(fn.args[1], O) and \
                         kws.get('axis') is not None and kws['axis'].const() == 0
                     # requested points beyond the selected native points keep the first / last selected value, as
                     # np.interp does for the cross-sections (the two opacity forms answer alike)
